@@ -1,6 +1,360 @@
 /- helper lemmas for TjdProps/C16.lean -/
 import Mathlib.Algebra.Order.Field.Basic
+import Mathlib.Data.List.Perm.Basic
+import Mathlib.Algebra.BigOperators.Group.List.Basic
+import Mathlib.Tactic.Linarith
+import Mathlib.Tactic.Ring
 import TjdModel.Agg.Spec2
 namespace Tjd.Agg
+open Tjd
+
+set_option linter.unusedSectionVars false
+set_option linter.unusedSimpArgs false
+
+variable {α : Type} [Field α] [LinearOrder α] [IsStrictOrderedRing α]
+
+/-! ### sorting -/
+
+theorem sortAsc_perm (xs : List α) : (sortAsc xs).Perm xs := List.mergeSort_perm _ _
+
+theorem sortAsc_length (xs : List α) : (sortAsc xs).length = xs.length :=
+  (sortAsc_perm xs).length_eq
+
+theorem sortAsc_sorted (xs : List α) : (sortAsc xs).Pairwise (· ≤ ·) := by
+  have h := List.pairwise_mergeSort (le := fun a b : α => decide (a ≤ b))
+    (by intro a b c h1 h2; simp only [decide_eq_true_eq] at *; exact le_trans h1 h2)
+    (by intro a b; simp only [Bool.or_eq_true, decide_eq_true_eq]; exact le_total a b) xs
+  simpa [sortAsc] using h
+
+theorem eq_of_sorted_perm {l₁ l₂ : List α} (h₁ : l₁.Pairwise (· ≤ ·)) (h₂ : l₂.Pairwise (· ≤ ·))
+    (h : l₁.Perm l₂) : l₁ = l₂ := by
+  have h₁' : l₁.Pairwise (fun a b => decide (a ≤ b) = true) := by simpa using h₁
+  have h₂' : l₂.Pairwise (fun a b => decide (a ≤ b) = true) := by simpa using h₂
+  exact List.Perm.eq_of_pairwise (le := fun a b : α => decide (a ≤ b))
+    (by intro a b _ _ h1 h2; simp only [decide_eq_true_eq] at *; exact le_antisymm h1 h2) h₁' h₂' h
+
+theorem sortAsc_eq_of_sorted_perm {l xs : List α} (hl : l.Pairwise (· ≤ ·)) (h : l.Perm xs) :
+    sortAsc xs = l :=
+  eq_of_sorted_perm (sortAsc_sorted xs) hl ((sortAsc_perm xs).trans h.symm)
+
+theorem sortAsc_eq_of_perm {c₁ c₂ : List α} (h : c₁.Perm c₂) : sortAsc c₁ = sortAsc c₂ :=
+  sortAsc_eq_of_sorted_perm (sortAsc_sorted c₂) ((sortAsc_perm c₂).trans h.symm)
+
+/-! ### trimmed mean -/
+
+theorem trimmedMeanCol_eq (b : Nat) (column : List α) :
+    trimmedMeanCol b column =
+      (((sortAsc column).drop b).take (column.length - 2 * b)).sum /
+        ((column.length - 2 * b : Nat) : α) := rfl
+
+theorem trimmedMeanCol_zero' (column : List α) :
+    trimmedMeanCol 0 column = column.sum / (column.length : α) := by
+  rw [trimmedMeanCol_eq]
+  have : ((sortAsc column).drop 0).take (column.length - 2 * 0) = sortAsc column := by
+    simp [List.take_of_length_le, sortAsc_length]
+  rw [this, (sortAsc_perm column).sum_eq]
+  simp
+
+theorem trimmedMeanCol_perm' (b : Nat) {c₁ c₂ : List α} (h : c₁.Perm c₂) :
+    trimmedMeanCol b c₁ = trimmedMeanCol b c₂ := by
+  rw [trimmedMeanCol_eq, trimmedMeanCol_eq, sortAsc_eq_of_perm h, h.length_eq]
+
+/-- in a sorted list with at most `b` entries `< lo`, everything after the first `b` is `≥ lo` -/
+theorem sorted_drop_ge {lo : α} : ∀ (s : List α) (b : Nat), s.Pairwise (· ≤ ·) →
+    (s.filter (· < lo)).length ≤ b → ∀ x ∈ s.drop b, lo ≤ x
+  | [], _, _, _, x, hx => by simp at hx
+  | y :: t, b, hs, hc, x, hx => by
+    rw [List.pairwise_cons] at hs
+    by_cases hy : y < lo
+    · cases b with
+      | zero => simp [List.filter_cons, hy] at hc
+      | succ b =>
+        rw [List.drop_succ_cons] at hx
+        refine sorted_drop_ge t b hs.2 ?_ x hx
+        simp only [List.filter_cons, hy, decide_true, if_true, List.length_cons] at hc
+        omega
+    · have hy' : lo ≤ y := not_lt.mp hy
+      have hx' : x ∈ y :: t := List.mem_of_mem_drop hx
+      rcases List.mem_cons.mp hx' with rfl | hxt
+      · exact hy'
+      · exact le_trans hy' (hs.1 x hxt)
+
+/-- in a sorted list with at most `b` entries `> hi`, everything but the last `b` is `≤ hi` -/
+theorem sorted_take_le {hi : α} : ∀ (s : List α) (b : Nat), s.Pairwise (· ≤ ·) →
+    (s.filter (hi < ·)).length ≤ b → ∀ x ∈ s.take (s.length - b), x ≤ hi
+  | [], _, _, _, x, hx => by simp at hx
+  | y :: t, b, hs, hc, x, hx => by
+    rw [List.pairwise_cons] at hs
+    by_cases hb : t.length + 1 ≤ b
+    · have : (y :: t).length - b = 0 := by simp only [List.length_cons]; omega
+      rw [this] at hx; simp at hx
+    · have hlen : (y :: t).length - b = (t.length - b) + 1 := by
+        simp only [List.length_cons]; omega
+      rw [hlen, List.take_succ_cons] at hx
+      have hy : y ≤ hi := by
+        by_contra hcon
+        have hcon : hi < y := not_le.mp hcon
+        have hall : (y :: t).filter (hi < ·) = y :: t := by
+          rw [List.filter_eq_self]
+          intro a ha
+          rcases List.mem_cons.mp ha with rfl | hat
+          · simpa using hcon
+          · simpa using lt_of_lt_of_le hcon (hs.1 a hat)
+        rw [hall] at hc
+        simp only [List.length_cons] at hc
+        omega
+      rcases List.mem_cons.mp hx with rfl | hxt
+      · exact hy
+      · refine sorted_take_le t b hs.2 ?_ x hxt
+        have hny : ¬ hi < y := not_lt.mpr hy
+        simpa [List.filter_cons, hny] using hc
+
+theorem sum_ge_of_forall_ge {lo : α} : ∀ (l : List α), (∀ x ∈ l, lo ≤ x) →
+    lo * (l.length : α) ≤ l.sum
+  | [], _ => by simp
+  | y :: t, h => by
+    have h1 := h y (List.mem_cons_self)
+    have h2 := sum_ge_of_forall_ge t (fun x hx => h x (List.mem_cons_of_mem _ hx))
+    simp only [List.length_cons, List.sum_cons, Nat.cast_add, Nat.cast_one]
+    linarith
+
+theorem sum_le_of_forall_le {hi : α} : ∀ (l : List α), (∀ x ∈ l, x ≤ hi) →
+    l.sum ≤ hi * (l.length : α)
+  | [], _ => by simp
+  | y :: t, h => by
+    have h1 := h y (List.mem_cons_self)
+    have h2 := sum_le_of_forall_le t (fun x hx => h x (List.mem_cons_of_mem _ hx))
+    simp only [List.length_cons, List.sum_cons, Nat.cast_add, Nat.cast_one]
+    linarith
+
+/-- entries `< lo` can only be at corrupted positions -/
+theorem filter_lt_le_bad {lo hi : α} : ∀ (column : List α) (good : List Bool),
+    good.length = column.length →
+    (∀ i, i < column.length → good.getD i false = true →
+        lo ≤ column.getD i 0 ∧ column.getD i 0 ≤ hi) →
+    (column.filter (· < lo)).length ≤ (good.filter (· = false)).length ∧
+    (column.filter (hi < ·)).length ≤ (good.filter (· = false)).length
+  | [], _, _, _ => by simp
+  | y :: t, [], hlen, _ => by simp at hlen
+  | y :: t, g :: gs, hlen, h => by
+    have hlen' : gs.length = t.length := by simpa using hlen
+    have ih := filter_lt_le_bad (lo := lo) (hi := hi) t gs hlen' (by
+      intro i hi' hg
+      have := h (i + 1) (by simp only [List.length_cons]; omega) (by simpa using hg)
+      simpa using this)
+    have h0 := h 0 (by simp)
+    simp only [List.getD_cons_zero] at h0
+    cases g with
+    | true =>
+      have := h0 rfl
+      have h1 : ¬ y < lo := not_lt.mpr this.1
+      have h2 : ¬ hi < y := not_lt.mpr this.2
+      simpa [List.filter_cons, h1, h2] using ih
+    | false =>
+      constructor
+      · by_cases h1 : y < lo <;> simp [List.filter_cons, h1] at ih ⊢ <;> omega
+      · by_cases h2 : hi < y <;> simp [List.filter_cons, h2] at ih ⊢ <;> omega
+
+theorem trimmedMeanCol_robust' (b : Nat) (column : List α) (good : List Bool) (lo hi : α)
+    (hlen : good.length = column.length) (hm : 2 * b + 1 ≤ column.length)
+    (hbad : (good.filter (· = false)).length ≤ b)
+    (hrange : ∀ i, i < column.length → good.getD i false = true →
+        lo ≤ column.getD i 0 ∧ column.getD i 0 ≤ hi) :
+    lo ≤ trimmedMeanCol b column ∧ trimmedMeanCol b column ≤ hi := by
+  obtain ⟨hclo, hchi⟩ := filter_lt_le_bad (lo := lo) (hi := hi) column good hlen hrange
+  have hs := sortAsc_sorted column
+  have hp := sortAsc_perm column
+  have hslo : ((sortAsc column).filter (· < lo)).length ≤ b := by
+    rw [(hp.filter _).length_eq]; omega
+  have hshi : ((sortAsc column).filter (hi < ·)).length ≤ b := by
+    rw [(hp.filter _).length_eq]; omega
+  have hsl := sortAsc_length column
+  have hkept_lo : ∀ x ∈ ((sortAsc column).drop b).take (column.length - 2 * b), lo ≤ x :=
+    fun x hx => sorted_drop_ge _ b hs hslo x (List.mem_of_mem_take hx)
+  have hkept_hi : ∀ x ∈ ((sortAsc column).drop b).take (column.length - 2 * b), x ≤ hi := by
+    intro x hx
+    rw [List.take_drop] at hx
+    have hx := List.mem_of_mem_drop hx
+    have e : b + (column.length - 2 * b) = (sortAsc column).length - b := by omega
+    rw [e] at hx
+    exact sorted_take_le _ b hs hshi x hx
+  have hklen : (((sortAsc column).drop b).take (column.length - 2 * b)).length
+      = column.length - 2 * b := by
+    simp only [List.length_take, List.length_drop, hsl]; omega
+  have hpos : (0 : α) < ((column.length - 2 * b : Nat) : α) := by
+    apply Nat.cast_pos.mpr; omega
+  have h1 := sum_ge_of_forall_ge _ hkept_lo
+  have h2 := sum_le_of_forall_le _ hkept_hi
+  rw [hklen] at h1 h2
+  rw [trimmedMeanCol_eq]
+  exact ⟨(le_div_iff₀ hpos).mpr h1, (div_le_iff₀ hpos).mpr h2⟩
+
+/-! ### matrix version -/
+
+theorem trimmedMean_getD [Inhabited α] (b n : Nat) (J : Mat α) (c : Nat) (hc : c < n) :
+    (trimmedMean b n J).getD c 0 = trimmedMeanCol b (col J c) := by
+  simp [trimmedMean, List.getD_eq_getElem?_getD, hc]
+
+theorem col_length [Inhabited α] (J : Mat α) (c : Nat) : (col J c).length = J.length := by
+  simp [col]
+
+theorem col_getD [Inhabited α] (J : Mat α) (n c : Nat) (hJ : ∀ row ∈ J, row.length = n)
+    (hc : c < n) (i : Nat) (hi : i < J.length) :
+    (col J c).getD i 0 = (J.getD i []).getD c 0 := by
+  have hrow : c < (J[i]).length := by rw [hJ _ (List.getElem_mem hi)]; exact hc
+  simp [col, List.getD_eq_getElem?_getD, hi, hrow]
+
+theorem trimmedMean_robust' [Inhabited α] (b m n : Nat) (J : Mat α) (hJ : MatWF J m n)
+    (good : List Bool) (hlen : good.length = m) (hm : 2 * b + 1 ≤ m)
+    (hbad : (good.filter (· = false)).length ≤ b) (c : Nat) (hc : c < n) (lo hi : α)
+    (hrange : ∀ i, i < m → good.getD i false = true →
+        lo ≤ (J.getD i []).getD c 0 ∧ (J.getD i []).getD c 0 ≤ hi) :
+    lo ≤ (trimmedMean b n J).getD c 0 ∧ (trimmedMean b n J).getD c 0 ≤ hi := by
+  rw [trimmedMean_getD b n J c hc]
+  obtain ⟨hJ1, hJ2⟩ := hJ
+  apply trimmedMeanCol_robust' b (col J c) good lo hi
+  · rw [col_length, hJ1, hlen]
+  · rw [col_length, hJ1]; exact hm
+  · exact hbad
+  · intro i hi' hg
+    rw [col_length] at hi'
+    rw [col_getD J n c hJ2 hc i hi']
+    exact hrange i (hJ1 ▸ hi') hg
+
+/-! ### Krum -/
+
+/-- the sorted (score, index) list used by `lowestK` -/
+def krumSorted (scores : Vec α) : List (α × Nat) :=
+  scores.zipIdx.mergeSort (fun a b => decide (a.1 ≤ b.1))
+
+theorem lowestK_fst (scores : Vec α) (k : Nat) :
+    (lowestK scores k).1 = ((krumSorted scores).take k).map (·.2) := rfl
+
+theorem krumWeights_fst (D : Mat α) (f k : Nat) :
+    (krumWeights D f k).1 = (List.range D.length).map fun i =>
+      (if (lowestK (krumScores D f) k).1.contains i then (1 : α) else 0) / ((k : Nat) : α) := rfl
+
+theorem krumSorted_perm (scores : Vec α) : (krumSorted scores).Perm scores.zipIdx :=
+  List.mergeSort_perm _ _
+
+theorem krumSorted_sorted (scores : Vec α) :
+    (krumSorted scores).Pairwise (fun a b => a.1 ≤ b.1) := by
+  have h := List.pairwise_mergeSort (le := fun a b : α × Nat => decide (a.1 ≤ b.1))
+    (by intro a b c h1 h2; simp only [decide_eq_true_eq] at *; exact le_trans h1 h2)
+    (by intro a b; simp only [Bool.or_eq_true, decide_eq_true_eq]; exact le_total a.1 b.1)
+    scores.zipIdx
+  simpa [krumSorted] using h
+
+theorem krumScores_length (D : Mat α) (f : Nat) : (krumScores D f).length = D.length := by
+  simp [krumScores]
+
+theorem lowestK_nodup (scores : Vec α) (k : Nat) : (lowestK scores k).1.Nodup := by
+  rw [lowestK_fst]
+  have h1 : ((krumSorted scores).map (·.2)).Nodup := by
+    have hp := (krumSorted_perm scores).map (·.2)
+    rw [List.zipIdx_map_snd] at hp
+    exact hp.nodup_iff.mpr List.nodup_range'
+  exact List.Nodup.sublist ((List.take_sublist k _).map _) h1
+
+theorem lowestK_length (scores : Vec α) (k : Nat) (hk : k ≤ scores.length) :
+    (lowestK scores k).1.length = k := by
+  rw [lowestK_fst, List.length_map, List.length_take, (krumSorted_perm scores).length_eq,
+    List.length_zipIdx]
+  omega
+
+theorem lowestK_lt (scores : Vec α) (k : Nat) : ∀ i ∈ (lowestK scores k).1, i < scores.length := by
+  intro i hi
+  rw [lowestK_fst, List.mem_map] at hi
+  obtain ⟨p, hp, rfl⟩ := hi
+  have hp' : p ∈ scores.zipIdx := (krumSorted_perm scores).subset (List.mem_of_mem_take hp)
+  simpa using List.snd_lt_of_mem_zipIdx hp'
+
+theorem krum_average' (D : Mat α) (f k : Nat) (hkm : k ≤ D.length) :
+    ∃ sel : List Nat, sel.Nodup ∧ sel.length = k ∧ (∀ i ∈ sel, i < D.length) ∧
+      (krumWeights D f k).1 =
+        (List.range D.length).map fun i => if i ∈ sel then (1 : α) / (k : α) else 0 := by
+  refine ⟨(lowestK (krumScores D f) k).1, lowestK_nodup _ _, ?_, ?_, ?_⟩
+  · exact lowestK_length _ _ (by rw [krumScores_length]; exact hkm)
+  · intro i hi
+    have := lowestK_lt _ _ i hi
+    rwa [krumScores_length] at this
+  · rw [krumWeights_fst]
+    apply List.map_congr_left
+    intro i _
+    by_cases h : i ∈ (lowestK (krumScores D f) k).1 <;> simp [h]
+
+theorem krumWeights_getD (D : Mat α) (f k : Nat) (i : Nat) (hi : i < D.length) :
+    (krumWeights D f k).1.getD i 0 =
+      if i ∈ (lowestK (krumScores D f) k).1 then (1 : α) / (k : α) else 0 := by
+  rw [krumWeights_fst]
+  by_cases h : i ∈ (lowestK (krumScores D f) k).1 <;>
+    simp [List.getD_eq_getElem?_getD, hi, h]
+
+theorem lowestK_le (scores : Vec α) (k : Nat) (i j : Nat) (hj : j < scores.length)
+    (hi : i ∈ (lowestK scores k).1) (hnj : j ∉ (lowestK scores k).1) :
+    scores.getD i 0 ≤ scores.getD j 0 := by
+  rw [lowestK_fst] at hi hnj
+  rw [List.mem_map] at hi
+  obtain ⟨p, hp, rfl⟩ := hi
+  have hpz : p ∈ scores.zipIdx := (krumSorted_perm scores).subset (List.mem_of_mem_take hp)
+  rw [List.mem_zipIdx_iff_getElem?] at hpz
+  have hq : (scores[j], j) ∈ krumSorted scores := by
+    apply (krumSorted_perm scores).symm.subset
+    rw [List.mk_mem_zipIdx_iff_getElem?]
+    exact List.getElem?_eq_getElem hj
+  rw [← List.take_append_drop k (krumSorted scores), List.mem_append] at hq
+  have hqd : (scores[j], j) ∈ (krumSorted scores).drop k := by
+    rcases hq with hq | hq
+    · exact absurd (List.mem_map.mpr ⟨_, hq, rfl⟩) hnj
+    · exact hq
+  have hs := krumSorted_sorted scores
+  rw [← List.take_append_drop k (krumSorted scores), List.pairwise_append] at hs
+  have := hs.2.2 p hp _ hqd
+  simp only at this
+  rw [List.getD_eq_getElem?_getD, List.getD_eq_getElem?_getD, hpz, List.getElem?_eq_getElem hj]
+  simpa using this
+
+theorem krum_selects' (D : Mat α) (f k : Nat) (hk : 1 ≤ k)
+    (i j : Nat) (hi : i < D.length) (hj : j < D.length)
+    (hsel : (krumWeights D f k).1.getD i 0 ≠ 0) (hnot : (krumWeights D f k).1.getD j 0 = 0) :
+    (krumScores D f).getD i 0 ≤ (krumScores D f).getD j 0 := by
+  rw [krumWeights_getD D f k i hi] at hsel
+  rw [krumWeights_getD D f k j hj] at hnot
+  have hk0 : ((k : Nat) : α) ≠ 0 := Nat.cast_ne_zero.mpr (by omega)
+  apply lowestK_le _ k i j (by rw [krumScores_length]; exact hj)
+  · by_contra h; simp [h] at hsel
+  · intro h; simp [h, hk0] at hnot
+
+theorem sortAsc_zero_cons (row : List α) (i : Nat) (hi : i < row.length)
+    (hnn : ∀ x ∈ row, 0 ≤ x) (h0 : row[i] = 0) :
+    sortAsc row = 0 :: sortAsc (row.eraseIdx i) := by
+  apply sortAsc_eq_of_sorted_perm
+  · rw [List.pairwise_cons]
+    refine ⟨?_, sortAsc_sorted _⟩
+    intro x hx
+    have hx' : x ∈ row.eraseIdx i := (sortAsc_perm _).subset hx
+    exact hnn x ((List.eraseIdx_sublist row i).subset hx')
+  · have := List.getElem_cons_eraseIdx_perm hi
+    rw [h0] at this
+    exact ((sortAsc_perm _).cons 0).trans this
+
+theorem krumScores_getD (D : Mat α) (f i : Nat) (hi : i < D.length) :
+    (krumScores D f).getD i 0 =
+      ((smallest (D.length - f - 2 + 1) (D.getD i [])).drop 1).sum := by
+  simp [krumScores, List.getD_eq_getElem?_getD, hi]
+
+theorem krum_neighbourhood' (D : Mat α) (f : Nat) (i : Nat) (hi : i < D.length)
+    (hrow : (D.getD i []).length = D.length) (hnn : ∀ x ∈ D.getD i [], 0 ≤ x)
+    (hdiag : (D.getD i []).getD i 0 = 0) :
+    (krumScores D f).getD i 0 =
+      (smallest (D.length - f - 2) ((D.getD i []).eraseIdx i)).sum := by
+  rw [krumScores_getD D f i hi]
+  generalize D.getD i [] = row at *
+  have hi' : i < row.length := by rw [hrow]; exact hi
+  have h0 : row[i] = 0 := by
+    rw [List.getD_eq_getElem?_getD, List.getElem?_eq_getElem hi'] at hdiag
+    simpa using hdiag
+  simp only [smallest]
+  rw [sortAsc_zero_cons row i hi' hnn h0, List.take_succ_cons, List.drop_succ_cons, List.drop_zero]
 
 end Tjd.Agg
